@@ -751,8 +751,22 @@ pub fn run_batch(plan: &Plan, wall_cap_s: f64) -> (Agg, bool) {
                             break;
                         }
                         let seed = derive(base, &label, i);
-                        let out = run_generated(&pname, seed);
-                        let rel = relational(&prop, &pname, &tier, i, &out, seed);
+                        // a panic of the simulator itself must not take the batch down: it is counted and
+                        // turns the verdict into a harness error (exit 2)
+                        let attempt = std::panic::catch_unwind(std::panic::AssertUnwindSafe(|| {
+                            let out = run_generated(&pname, seed);
+                            let rel = relational(&prop, &pname, &tier, i, &out, seed);
+                            (out, rel)
+                        }));
+                        let (out, rel) = match attempt {
+                            Ok(x) => x,
+                            Err(_) => {
+                                agg.harness_panics += 1;
+                                eprintln!("[harness] run {}/{} (seed {}) panicked inside the simulator: {}", pname, i, seed, crate::last_panic());
+                                i += nw as u64;
+                                continue;
+                            }
+                        };
                         let nv = agg.viols.len();
                         let (tr, rg) = (out.trace.clone(), out.regime);
                         absorb(&mut agg, &prop, &pname, i, seed, &out, rel);
